@@ -78,7 +78,36 @@ def gen_diff():
         return ['git diff failed: %s' % e]
 
 
-def stage(module, extract=True, exe=False):
+def import_closure(module):
+    """the modules of this project that `module` imports, transitively (itself included)"""
+    seen, todo = [], [module]
+    while todo:
+        m = todo.pop()
+        if m in seen:
+            continue
+        path = os.path.join(LEAN, m.replace('.', '/') + '.lean')
+        if not os.path.exists(path):
+            continue
+        seen.append(m)
+        with open(path) as f:
+            for line in f:
+                mm = re.match(r'^\s*import\s+(Placement(?:\.[A-Za-z0-9_]+)*)\s*$', line)
+                if mm:
+                    todo.append(mm.group(1))
+    return sorted(seen)
+
+
+def recheck(module):
+    """thorough tier: re-check the compiled declarations of the property module and of everything of this project it
+    imports with `leanchecker` (the toolchain's independent kernel re-checker of .olean files)"""
+    mods = import_closure(module)
+    t0 = time.time()
+    q = subprocess.run(['lake', 'env', 'leanchecker'] + mods, capture_output=True, text=True, cwd=LEAN)
+    return {'modules': len(mods), 'ok': q.returncode == 0, 'wall_s': round(time.time() - t0, 1),
+            'output_tail': (q.stdout + q.stderr)[-600:]}
+
+
+def stage(module, extract=True, exe=False, thorough=False):
     res = {'module': module, 'ok': True, 'theorems': [], 'axioms': {}, 'broken': [], 'extract_errors': [],
            'audit': [], 'log_tail': []}
     os.makedirs(LEAN, exist_ok=True)
@@ -133,6 +162,12 @@ def stage(module, extract=True, exe=False):
                 res['ok'] = False
                 res['audit'].append('declared but not found in compiled module: %s' % missing)
             res['theorems'] = sorted(full) if full else res['theorems']
+            if thorough:
+                rc = recheck(module)
+                res['leanchecker'] = rc
+                if not rc['ok']:
+                    res['ok'] = False
+                    res['audit'].append('leanchecker rejected the compiled modules: ' + rc['output_tail'])
     return res
 
 
